@@ -5,6 +5,7 @@ import (
 	"go/token"
 	"go/types"
 	"math/big"
+	"regexp"
 	"sort"
 	"strings"
 
@@ -180,6 +181,8 @@ func newVC(eng *Engine, fn *ssa.Function, c *Contract) *VC {
 
 // ---------- obligations ----------
 
+var propTagRe = regexp.MustCompile(`(?:^|\.)(C\d\d)_`)
+
 func (vc *VC) oblige(st *State, kind, goal, desc string, pos token.Pos, top bool) *Obligation {
 	if vc.suppress > 0 || st.dead {
 		return nil
@@ -188,6 +191,17 @@ func (vc *VC) oblige(st *State, kind, goal, desc string, pos token.Pos, top bool
 		switch kind {
 		case "bounds", "bounds.slice", "bounds.make", "nil", "overflow", "div0", "shift", "typeassert", "nilmap":
 			return nil // contract says "nosafety": only permission/functional obligations are generated
+		}
+	}
+	if vc.eng.prop != "" {
+		if m := propTagRe.FindStringSubmatch(kind); m != nil {
+			if m[1] != vc.eng.prop {
+				return nil // clause of another property (checked by that property's command)
+			}
+		} else if c := vc.contract; c != nil && len(c.Props) > 1 && c.Props[0] != vc.eng.prop && c.hasTaggedClause() {
+			// a function listed under several properties: its untagged clauses and
+			// its safety obligations belong to the first one
+			return nil
 		}
 	}
 	if goal == "true" {
